@@ -114,6 +114,16 @@ static void build_ops()
        RCP<const Integer> f = factorial(i.as_int()); map_integer_uint pf; prime_factor_multiplicities(pf, *f->addint(*integer(1))); return integer((long)pf.size()););
     OP("expression_wrapper", Expression e1(a); Expression e2(b); Expression r = (e1 + e2) * e1 - e2 / (e1 + Expression(3)); return r.get_basic(););
     OP("tuple_vec", vec_basic v = {a, b, a}; B t = tuple(v); return t->get_args()[1];);
+    // exponent-merging chains (from reading Mul::dict_add_term_new / Add::dict_add_term): three powers of ONE composite base whose
+    // exponents sum first to a fraction (power_num creates a fresh key that only the working dictionary owns) and then to an
+    // integer (that key is erased and re-expanded); and the same through substitution without the visitor cache
+    OP("mulchain", B base = mul(integer(3), a); B half = Rational::from_two_ints(1, 2);
+       return mul({pow(base, b), pow(base, sub(half, b)), sqrt(a)}););
+    OP("mulchain2", B base = mul(integer(3), a); B third = Rational::from_two_ints(1, 3);
+       return mul({pow(base, third), b, pow(base, Rational::from_two_ints(2, 3)), pow(a, minus_one)}););
+    OP("addchain", return add({b, mul(integer(2), add(a, one)), neg(add(a, one)), neg(add(a, one))}););
+    OP("subs_nocache", B p = symbol("p"); B q = symbol("q"); B e = mul(sqrt(p), sqrt(q)); map_basic_basic m; m[p] = mul(integer(3), a); m[q] = mul(integer(3), a);
+       B r = SymEngine::subs(e, m, false); map_basic_basic m2; m2[X] = b; return SymEngine::subs(r, m2, false););
 #undef OP
 }
 
@@ -156,6 +166,7 @@ int main(int argc, char **argv)
             {"0.5", real_double(0.5)},
             {"x+y", add(X, Y)},
             {"x*y", mul(X, Y)},
+            {"y", Y},
             {"x^2+1", add(pow(X, integer(2)), one)},
             {"sin(x)", sin(X)},
             {"sqrt(x)", sqrt(X)},
@@ -164,7 +175,7 @@ int main(int argc, char **argv)
             {"pi", pi},
             {"oo", Inf},
             {"f(x)", function_symbol("f", X)}};
-    const long long NP = thorough ? 12 : 7, NO = OPS.size();
+    const long long NP = thorough ? 14 : 9, NO = OPS.size();
     // programs: (seed pair) x (op1,dst1) x (op2,dst2 | none)
     // quick: both instructions write r0 (dst fixed); thorough: every destination choice
     const long long ND = thorough ? 2 : 1;
